@@ -92,7 +92,8 @@ contract(P + "RemoveEmptyContainers.rewrite_Union", props=["C07", "C01"], theori
 rw_contract("RewriteConfigDict.rewrite_Union", "union", kinds=["Union"],
             loops={0: {"iter": "union.__args__",
                        "inv": {"dicts": "forall(range_(0, _i), lambda j: kind(nth(args(union), j)) is K_Dict and nth(args(nth(args(union), j)), 0) is key_type)",
-                               "key": "implies(_i > 0, key_type is not None)",
+                               "key": "implies(_i > 0, key_type is not None and wf_rw(key_type) and key_type is not ELLIPSIS_)",
+                               "vals-wf": "forall(range_(0, _i), lambda j: wf_rw(nth(value_types, j)) and nth(value_types, j) is not ELLIPSIS_)",
                                "vals-len": "len(value_types) == _i",
                                "vals": "forall(range_(0, _i), lambda j: nth(value_types, j) is nth(args(nth(args(union), j)), 1))"}},
                    "tags": {"value_types": "Seq[Ty]", "key_type": "Opt[Ty]"}})
@@ -103,7 +104,8 @@ contract(P + "RewriteLargeUnion._rewrite_to_tuple", props=["C07"], theories=TH, 
          requires={"wf": WF.format(x="union"), "kind": "kind(union) is K_Union"},
          ensures={"post:widen": "implies(result is not None, " + W.format(x="union") + ")", "post:wf": "implies(result is not None, wf_rw(result) and result is not ELLIPSIS_)"},
          loops={0: {"iter": "union.__args__",
-                    "inv": {"tuples": "forall(range_(0, _i), lambda j: kind(nth(args(union), j)) is K_Tuple or kind(nth(args(union), j)) is K_TupleVar)",
+                    "inv": {"members-wf": "forall(args(union), lambda m: wf_rw(m) and m is not ELLIPSIS_)",
+                            "tuples": "forall(range_(0, _i), lambda j: kind(nth(args(union), j)) is K_Tuple or kind(nth(args(union), j)) is K_TupleVar)",
                             "value": "implies(_i > 0, value_type is not None and wf_rw(value_type) and value_type is not ELLIPSIS_)",
                             "elems": "forall(range_(0, _i), lambda j: forall(args(nth(args(union), j)), lambda e: e is value_type))"}},
                 "tags": {"value_type": "Opt[Ty]"}})
